@@ -132,6 +132,26 @@ CLAIMS["C12"] = dict(
         "invalid_ rule is invoked with the flag off, and the flag is monitored at every call in both modes.",
    design="6/C12", technique="Coq proofs (flag preservation by induction on fuel; detector exactness via table simulation) + strip-equivalence sweep",
    note="The equivalence with the stripped grammar as a whole-program theorem is not stated; it is checked on enumerated inputs.")
+CLAIMS["C15"] = dict(
+   text="Coq theorems (Props/C15.v): for every token list and state, the token whose end is used for LOCATIONS is the last "
+        "token before the cursor that is not NEWLINE/INDENT/DEDENT/ENDMARKER -- independent of how many tokens were fetched "
+        "beyond the cursor by earlier backtracking, lookahead or cache reuse -- and the start comes from the token at the "
+        "method's entry position. Tie: K-run under the four configurations on grammars whose actions use LOCATIONS at rule "
+        "level, in groups, loops, after lookaheads and in left-recursive rules (values carry the four numbers); direct "
+        "comparison with the matched span for start-rule actions.",
+   design="6/C15", technique="Coq list-level proof of the end-token scan + value-carrying K-run correspondence",
+   note="The degenerate case (only layout tokens matched) is outside the statement, as in the property's quantifier.")
+CLAIMS["C02"] = dict(
+   text="Coq (Props/C02.v): for every method body satisfying the position invariant, every mark, fuel and state, the growth "
+        "loop of memoize_left_rec returns a match ending at or after the mark, leaves the cursor at the mark for a falsy "
+        "result and stores only consistent seeds; a computed example shows two growth steps and the left-nested tree. Tie: "
+        "K-gen (decorator choice incl. helper rules) and K-run with event traces through growth. On the implementation: 19 "
+        "left-recursive families (recursive reference bare/named/grouped/behind lookahead/behind nullable rule/in optional/"
+        "in loop; cycles of 2-3 rules entered at any member; helpers inside cycles) x all inputs up to length 5-6: accepted "
+        "language vs the regular language denoted, vs the right-iterative/distributed rewrite, left-nesting, termination.",
+   design="6/C02", technique="Coq invariant of the seed-growing loop + family sweeps with metamorphic rewrites and K-run correspondence",
+   note="Partial: the general statement (result = last strictly growing iterate of the reference semantics) and termination "
+        "bounds are not theorems yet.")
 NOT_YET = {}
 NOT_APPLICABLE = {
  "C06": "equates the generated parser with CPython's own C parser/ast.parse, for which no executable model exists "
